@@ -143,6 +143,17 @@ def obligations(tier, sc):
                   oracle="gid <= INT_MAX, gid >= PCF_RESERVED, (int) gid == gid: the .prv value (int64) is the value labelled in the .pcf ((int) gid)",
                   assumptions=["HASH_VALUE of uthash replaced by an arbitrary 32-bit value"])))
 
+    for m in ("nosv", "nanos6"):
+        obs.append(Obligation(
+            name="finish_types_%s" % m, harness="C13/finish_types.c", defines=["M_%s" % m], srcs=["src/emu/extend.c"],
+            incdirs=UT, native_cflags=NOLINK, unwind=8, timeout=300,
+            desc=dict(functions=["finish_pvt (%s/setup.c)" % m, "extend_set", "extend_get"],
+                      symbolic="emulation finished or interrupted; which trace (thread / cpu)",
+                      bound="3 processes in 2 looms (global list P0,P2,P1; loom chains {P0,P2} and {P1})",
+                      out="the contents of the type tables (task_type_labels obligation); model_<m>_finish calling finish_pvt for both traces (read)",
+                      oracle="task_create_pcf_types is called exactly once for every process of the system, with the task-type pcf type of the requested trace",
+                      assumptions=["recorder_find_pvt / pvt_get_pcf / pcf_find_type / task_create_pcf_types are recorders"])))
+
     # ---- families 3 + 4 per model: types declared, labels present
     for m in MODELS:
         pairs_h = gen_pairs(sc, m)
